@@ -158,6 +158,13 @@ func (h *Hist) NewDevice(capacity uint64) *Device {
 		d.ID = []uint32{1<<32 - 1, 1 << 31, 1<<31 - 1, 1<<24 + 7, 0}[i%5] - uint32(i/5)
 	}
 	d.Auth = StdAuth(h.GCA, d.ID, d.Key, capacity)
+	if len(h.Devs) > 0 && h.W.C.Chance("co-located", 1, 3) {
+		// Two devices on one site: bit-identical coordinates.
+		o := h.Devs[h.W.C.Int("site-of", len(h.Devs))].Auth
+		d.Auth.Latitude, d.Auth.Longitude = o.Latitude, o.Longitude
+		d.Auth = SignAuth(h.GCA, d.Auth)
+		h.W.Probe("hist.co-located")
+	}
 	h.N.DoAuthorize(d.Auth)
 	h.Devs = append(h.Devs, d)
 	return d
